@@ -22,7 +22,7 @@ LEVEL = "exploration"
 RULE = ("scenario = 2..4 concurrent send_message callers on one stream pair (staggered starts, own timeouts) + peer answers in a "
         "generated permutation/timing + unrelated notifications/foreign responses; non-trivial = an answer was delivered while at "
         "least two callers were waiting")
-PROBES = ["sse_pair_on_simulated_http", "answer_on_sse_event_stream", "answer_behind_burst_of_over_100_notifications", "in_phase_in_order_regime", "token_holder_next_to_plain_waiter", "all_answers_in_one_flush", "stdio_pair_on_fake_process", "int_and_digit_string_twin_ids", "answer_consumed_by_other_waiter", "answer_on_poll_edge", "answers_out_of_call_order", "answer_at_deadline"]
+PROBES = ["own_stream_per_request", "id_reused_for_the_next_request", "answer_inside_a_batch", "sse_pair_on_simulated_http", "answer_on_sse_event_stream", "answer_behind_burst_of_over_100_notifications", "in_phase_in_order_regime", "token_holder_next_to_plain_waiter", "all_answers_in_one_flush", "stdio_pair_on_fake_process", "int_and_digit_string_twin_ids", "answer_consumed_by_other_waiter", "answer_on_poll_edge", "answers_out_of_call_order", "answer_at_deadline"]
 TIERS = {"quick": {"runs": 25000, "wall": 45.0}, "thorough": {"runs": 2000000, "wall": 560.0}}
 ASSUMPTIONS = ["an answer is only sent after the peer has seen the request (a server cannot answer an id it has not received)"]
 SHRINK_LISTS = ["events"]
@@ -105,13 +105,42 @@ def generate(rng: random.Random, tier: str) -> dict:
         t = rng.randrange(c["start"] + 1, c["start"] + int(c["timeout"] / TICK) - 1)
         events = [{"t": t, "tie": 0, "hops": 0, "kind": "burst", "count": rng.choice([101, 150, 260])},
                   {"t": t, "tie": 0, "hops": 0, "kind": "answer", "caller": 0, "err": False}]
+    if regime is None and n >= 2 and rng.random() < 0.15:
+        # every caller registers its own one-shot stream for its id (StdioClient.new_request_stream): any answer order, any timing, any
+        # noise - this API exists so that nobody can consume somebody else's answer
+        regime = "per_request_streams"
+        carrier = "stdio"
+        for i, c in enumerate(callers):
+            c["mid"] = rng.choice([f"p{i}", f"req-{i}", 100 + i])  # distinct also as strings (the registry is keyed by str(id))
+        reuse = rng.random() < 0.3
+        if reuse:
+            # a server that answers one id twice plus a client that reuses that id is the server's (and the reuser's) problem: one answer per request
+            seen_c, kept = set(), []
+            for e in events:
+                if e["kind"] == "answer":
+                    if e["caller"] in seen_c:
+                        continue
+                    seen_c.add(e["caller"])
+                kept.append(e)
+            events = kept
+    else:
+        reuse = False
+    if regime is None and rng.random() < 0.06:
+        # one caller; the server answers inside a JSON-RPC batch whose first member is an unrelated notification (no version negotiated: batches are legal)
+        regime = "batch_leading_notification"
+        carrier = "stdio"
+        callers = callers[:1]
+        n = 1
+        c = callers[0]
+        t = rng.randrange(c["start"] + 1, c["start"] + int(c["timeout"] / TICK) - 1)
+        events = [{"t": t, "tie": 0, "hops": 0, "kind": "answer", "caller": 0, "err": rng.random() < 0.3, "in_batch": rng.choice(["notification_first", "notification_first", "answer_first"])}]
     post_lat = 1
     if regime == "inphase" and rng.random() < 0.3:
         carrier = "sse"
         post_lat = rng.choice([1, 1, 30, 300])  # a slow acknowledgement lets the event overtake the 202
     for k, e in enumerate(events):
         e["m"] = f"mk{k}"
-    return {"v": 1, "post_lat": post_lat, "uuid_seed": rng.getrandbits(40), "mode": rng.choice(["parse_message", "model_validate"]),
+    return {"v": 1, "reuse_id": reuse, "post_lat": post_lat, "uuid_seed": rng.getrandbits(40), "mode": rng.choice(["parse_message", "model_validate"]),
             "carrier": carrier, "regime": regime, "coalesce": rng.random() < 0.6,
             "callers": callers, "events": events}
 
@@ -176,10 +205,24 @@ def execute(scn: dict) -> dict:
             from sim.fakes.process import ProcessFactory
             stdio = importlib.import_module("chuk_mcp.transports.stdio.stdio_client")
             from chuk_mcp.transports.stdio.parameters import StdioParameters
-            factory = ProcessFactory(sim, lambda idx, argv, env: {"read_mode": "eager", "term_latency": ticks(1)})
+            def again_responder(line: bytes):
+                try:
+                    o = _json.loads(line)
+                except Exception:
+                    return []
+                if isinstance(o, dict) and o.get("method") == "x/again" and "id" in o:
+                    return [(ticks(2), [_json.dumps({"jsonrpc": "2.0", "id": o["id"], "result": {"again": True}}).encode() + b"\n"])]
+                return []
+            factory = ProcessFactory(sim, lambda idx, argv, env: {"read_mode": "eager", "term_latency": ticks(1), "responder": again_responder})
             async with AsyncExitStack() as stack:
                 stack.enter_context(patched((anyio, "open_process", factory)))
-                r, w = await stack.enter_async_context(stdio.stdio_client(StdioParameters(command="sim-child", args=[])))
+                if scn.get("regime") == "per_request_streams":
+                    client = stdio.StdioClient(StdioParameters(command="sim-child", args=[]))
+                    await stack.enter_async_context(client)
+                    r, w = client.get_streams()
+                    st["_client"] = client
+                else:
+                    r, w = await stack.enter_async_context(stdio.stdio_client(StdioParameters(command="sim-child", args=[])))
                 child = factory.children[0]
                 child.coalesce_reads = bool(scn.get("coalesce")) or scn.get("regime") == "burst_then_answer"
                 st["_child"] = child
@@ -283,6 +326,10 @@ def execute(scn: dict) -> dict:
             e = sim.rec("peer", "deliver:" + ev["kind"], None)
             delivered.append({"eseq": e, "t": sim.now(), "k": k, "ev": ev, "data": data, "obj": obj, "waiting": waiting})
             st["_data"] = data
+            if ev.get("in_batch"):
+                note = {"jsonrpc": "2.0", "method": "notifications/message", "params": {"data": "in-batch"}}
+                st["_data"] = [note, data] if ev["in_batch"] == "notification_first" else [data, note]
+                sim.probe("answer_inside_a_batch")
             to_client_send.send_nowait(obj)
 
         for k, ev in enumerate(scn["events"]):
@@ -300,16 +347,38 @@ def execute(scn: dict) -> dict:
                     kw["message_id"] = c["mid"]
                 if c.get("token"):
                     kw["cancellation_token"] = sm.CancellationToken()
-                res = await sm.send_message(rr, ws, c["method"], None, **kw)
+                my_rr = rr
+                if "_client" in st:
+                    my_rr = RecRecv(sim, st["_client"].new_request_stream(str(c["mid"])))
+                    st.setdefault("_extra_rr", []).append(my_rr)
+                res = await sm.send_message(my_rr, ws, c["method"], None, **kw)
                 st["out"][i] = ("return", res)
+                if "_client" in st and scn.get("reuse_id"):
+                    # the same id again for the caller's next request, registered the moment the first one is done
+                    rr2 = RecRecv(sim, st["_client"].new_request_stream(str(c["mid"])))
+                    try:
+                        st.setdefault("again", {})[i] = ("return", await sm.send_message(rr2, ws, "x/again", None, timeout=1.0, message_id=c["mid"]))
+                    except BaseException as e2:  # noqa
+                        st.setdefault("again", {})[i] = ("raise", e2)
             except BaseException as e:  # noqa
                 st["out"][i] = ("raise", e)
             st["t_done"][i] = sim.now()
             sim.rec(f"caller-{i}", "done", st["out"][i][0])
 
+        async def drain_main():
+            try:
+                async for _m in rr._inner if hasattr(rr, "_inner") else rr:
+                    pass
+            except Exception:
+                pass
+
         async with anyio.create_task_group() as tg:
-            for i in range(n):
-                tg.start_soon(caller, i, name=f"caller-{i}")
+            if "_client" in st:
+                tg.start_soon(drain_main, name="drain-main")
+            async with anyio.create_task_group() as tg2:
+                for i in range(n):
+                    tg2.start_soon(caller, i, name=f"caller-{i}")
+            tg.cancel_scope.cancel()
         await anyio.sleep(0.5)
 
     with patched((_uuid, "uuid4", fu)):
@@ -332,7 +401,8 @@ def execute(scn: dict) -> dict:
     # who consumed which delivered object
     consumer = {}
     unmatched = list(delivered)
-    for (_e, _t, tn, item) in rr.got:
+    all_got = list(rr.got) + [g for x in st.get("_extra_rr", []) for g in x.got]
+    for (_e, _t, tn, item) in all_got:
         d_ = dump(item)
         d_ = {k_: v_ for k_, v_ in d_.items() if v_ is not None} if isinstance(d_, dict) else d_
         for cand in unmatched:
@@ -403,7 +473,11 @@ def execute(scn: dict) -> dict:
                     probe("sse_answer_pushed_before_the_202")
         if first is not None and eff_t < deadline and actual[0] == "timeout":
             who = consumer.get(id(first["obj"]))
-            if scn.get("regime") == "burst_then_answer":
+            if scn.get("regime") == "per_request_streams":
+                cause = "own-stream-per-request:" + ("never-consumed" if who is None else ("self" if who == f"caller-{i}" else "other"))
+            elif scn.get("regime") == "batch_leading_notification":
+                cause = "single-caller-answer-inside-batch:" + ("never-consumed" if who is None else "consumed")
+            elif scn.get("regime") == "burst_then_answer":
                 cause = "single-caller-behind-notification-burst:" + ("never-consumed" if who is None else "consumed")
             elif scn.get("regime") == "inphase":
                 cause = "in-phase-in-order:" + ("never-consumed" if who is None else ("self" if who == f"caller-{i}" else "other-waiter"))
@@ -429,6 +503,13 @@ def execute(scn: dict) -> dict:
         probe("in_phase_in_order_regime")
         if any(c.get("token") for c in callers) and not all(c.get("token") for c in callers):
             probe("token_holder_next_to_plain_waiter")
+    if scn.get("regime") == "per_request_streams":
+        probe("own_stream_per_request")
+        for i, (k2, v2) in sorted(st.get("again", {}).items()):
+            probe("id_reused_for_the_next_request")
+            if not (k2 == "return" and v2 == {"again": True}):
+                V("lost-response", "own-stream-per-request:id-reused-for-next-request", f"caller {i} re-registered its id for a second request right after the first "
+                                                                                     f"completed; the server answered it, the call ended {k2}:{type(v2).__name__}:{str(v2)[:80]}")
     if scn.get("regime") == "burst_then_answer":
         probe("answer_behind_burst_of_over_100_notifications")
     if scn.get("regime") == "one_flush":
